@@ -670,3 +670,594 @@ def replay_loop_grid(args):
         if not ok:
             bad.append(msg)
     return (not bad), ("%d disagreeing cases, first: %s" % (len(bad), bad[0]) if bad else "all cases agree")
+
+
+# =====================================================================================================
+# C15.hastings: the value returned by the real `_step` is the log ratio of reverse to forward proposal densities
+# =====================================================================================================
+def _op_torch(symbolic, u, indices, rec):
+    """`torch` as seen by torchtree.inference.mcmc.operator during one scenario: rand(1).item() -> the draw u in [0,1);
+    randint(lo, hi, (1,)).item() -> the next chosen index (the bounds are recorded: they must not depend on values)"""
+    it = iter(indices)
+
+    def rand(*shape, **k):
+        rec.append(("rand", shape))
+        return types.SimpleNamespace(item=lambda: u)
+
+    def randint(lo, hi, size, **k):
+        rec.append(("randint", lo, hi))
+        i = next(it)
+        return types.SimpleNamespace(item=lambda: i)
+    over = {"rand": rand, "randint": randint}
+    if symbolic:
+        from vt.symtorch import stensor
+        over["tensor"] = stensor
+    return _NS(torch, **over)
+
+
+def _log_ratio(a, b):
+    """log(a/b) for a/b > 0; symbolic: the quotient is formed in the direction in which the exact normal form can cancel
+    a common polynomial factor (nf divides numerator by denominator, not the other way round)"""
+    if isinstance(a, nf.RF) or isinstance(b, nf.RF):
+        r1 = nf.as_rf(a) / nf.as_rf(b)
+        if r1.d.is_one() or len(r1.d.t) == 1:
+            return nf.rlog(r1)
+        return -nf.rlog(nf.as_rf(b) / nf.as_rf(a))
+    return math.log(a / b)
+
+
+def _operator_class(kind):
+    om = _om()
+    base = {"scaler": om.ScalerOperator, "sliding": om.SlidingWindowOperator, "dirichlet": om.DirichletOperator}[kind.split("~")[0]]
+    if "~" not in kind:
+        return base
+    twin = kind.split("~")[1]
+    if twin == "signflip":     # must-fail twin: Hastings term with the wrong sign
+        class SignFlip(base):
+            def _step(self):
+                return -base._step(self)
+        return SignFlip
+    if twin == "zero":         # must-fail twin: Hastings term dropped
+        class Zero(base):
+            def _step(self):
+                return base._step(self) * 0.0
+        return Zero
+    raise KeyError(kind)
+
+
+def _clone(t):
+    return t.clone()
+
+
+def _step_1d(kind, xs, tuning, u, index, index2, symbolic):
+    """one real step() of a real one-coordinate operator on fresh real Parameters holding clones of xs"""
+    from torchtree.core.parameter import Parameter
+    om = _om()
+    params = [Parameter("p%d" % i, _clone(x)) for i, x in enumerate(xs)]
+    op = _operator_class(kind)("op", params, 1.0, 0.24, tuning)
+    rec = []
+    with _module_names(om, torch=_op_torch(symbolic, u, [index, index2], rec)):
+        h = op.step()
+    return [p.tensor for p in params], h, rec
+
+
+def scn_hastings_1d(kind, n_params, dim, index, index2, sign):
+    """ScalerOperator / SlidingWindowOperator move ONE coordinate x_j -> x'_j = T(x_j, u) with u ~ U[0,1) and return h.
+
+    Derivation of the true ratio (change of variables, written from the property statement, not from the code): the
+    choice of the coordinate is uniform and value-independent (checked: the bounds given to randint), so it cancels.
+    Given the coordinate, x'_j has density  q(x'|x) = 1 / |dT/du|(x_j, u)  w.r.t. Lebesgue measure (T monotone in u).
+    The reverse move draws u* with T(x'_j, u*) = x_j and has density q(x|x') = 1 / |dT/du|(x'_j, u*).  Hence
+        log q(x|x') - log q(x'|x) = log|dT/du|(x_j, u) - log|dT/du|(x'_j, u*).
+    Both derivatives are taken from the operator's OWN behaviour: the real `step()` is run forward from x with draw u
+    and again from x' with a fresh draw v; dT/du is the exact symbolic derivative of the resulting parameter value
+    (concrete mode: Richardson-extrapolated central difference of the real step()).  Obligations: only coordinate j
+    moves; the reverse derivative does not depend on v (so no equation has to be solved for u*); u* = (x_j - T(x'_j,0))
+    / (dT/dv) lies in [0,1] (the reverse move is proposable); h equals the ratio.
+    For the scaler (s = a + u(1/a - a) uniform on [a,1/a], x' = s x) this gives -log s, for the sliding window 0."""
+    def scn(mk):
+        base = kind.split("~")[0]
+        if base == "scaler":
+            tun = el(mk.real("a", (), lo=0, hi=1))
+        else:
+            tun = el(mk.real("w", (), lo=0))
+        xs = []
+        for i in range(n_params):
+            if base == "scaler":
+                y = mk.real("y%d" % i, (dim,), lo=0)
+                xs.append(y if sign > 0 else -y)
+            else:
+                xs.append(mk.real("x%d" % i, (dim,)))
+        u = el(mk.real("u", (), lo=0, hi=1, lo_incl=True))
+        v = el(mk.real("v", (), lo=0, hi=1, lo_incl=True))
+        sym_ = mk.symbolic
+        post, h, rec = _step_1d(kind, xs, tun, u, index, index2, sym_)
+        claims = [("true", "index draws are value-independent",
+                   [r for r in rec if r[0] == "randint"] == [("randint", 0, n_params), ("randint", 0, dim)], rec)]
+        # frame: only coordinate (index, index2) moves
+        for i in range(n_params):
+            for j in range(dim):
+                if (i, j) != (index, index2):
+                    claims.append(("eq", "frame[%d,%d]" % (i, j), [el(post[i], (j,))], [el(xs[i], (j,))]))
+        xj = el(xs[index], (index2,))
+        xpj = el(post[index], (index2,))
+        back, _, _ = _step_1d(kind.split("~")[0], post, tun, v, index, index2, sym_)
+        xbj = el(back[index], (index2,))
+        back0, _, _ = _step_1d(kind.split("~")[0], post, tun, 0.0 if not sym_ else nf.const(0), index, index2, sym_)
+        xb0 = el(back0[index], (index2,))
+        if sym_:
+            Df = nf.diff(xpj, "u")
+            Dr = nf.diff(xbj, "v")
+            claims.append(("zero", "reverse density does not depend on the reverse draw", [nf.diff(Dr, "v")]))
+        else:
+            def d_num(f, at):
+                def cd(e):
+                    return (f(at + e) - f(at - e)) / (2 * e)
+                e = 1e-3
+                return (4 * cd(e / 2) - cd(e)) / 3
+            uu, vv = float(u), float(v)
+            uu_ = min(max(uu, 2e-3), 1 - 2e-3)
+            vv_ = min(max(vv, 2e-3), 1 - 2e-3)
+            Df = d_num(lambda t: float(_step_1d(kind, xs, tun, t, index, index2, False)[0][index][index2]), uu_)
+            Dr = d_num(lambda t: float(_step_1d(kind.split("~")[0], post, tun, t, index, index2, False)[0][index][index2]), vv_)
+            Dr2 = d_num(lambda t: float(_step_1d(kind.split("~")[0], post, tun, t, index, index2, False)[0][index][index2]), 0.5)
+            claims.append(("true", "reverse density does not depend on the reverse draw", abs(Dr - Dr2) <= 1e-8 * abs(Dr), (Dr, Dr2)))
+        sg = sign if base == "scaler" else 1
+        claims.append(("gt0", "forward map strictly monotone in the draw", [sg * Df]))
+        claims.append(("gt0", "reverse map strictly monotone in the draw", [sg * Dr]))
+        ustar = (xj - xb0) / Dr
+        claims.append(("ge0", "reverse move proposable: u* >= 0", [ustar]))
+        claims.append(("ge0", "reverse move proposable: u* <= 1", [1 - ustar]))
+        claims.append(("eq", "hastings = log q(x|x') - log q(x'|x)", [el(h)], [_log_ratio(Df, Dr)]))
+        return claims
+    return scn
+
+
+class _DirichletTwin:
+    pass
+
+
+def scn_hastings_dirichlet(K, kind="dirichlet"):
+    """DirichletOperator: x on the simplex, x' ~ Dirichlet(s x) (checked: the concentration of the distribution object whose
+    sample() is used, and that the parameter is set to the draw); the true ratio is
+        log Dir(x ; s x') - log Dir(x' ; s x),   log Dir(v; c) = sum (c_i - 1) log v_i + lgamma(sum c) - sum lgamma(c_i)
+    written out here from the definition of the Dirichlet density.  `torch.distributions.Dirichlet` of the module namespace
+    is the REAL class with only `sample()` replaced by 'returns the chosen draw' (log_prob is torch's own code, executed on
+    symbolic tensors through lgamma / xlogy / sum handlers)."""
+    def scn(mk):
+        from torchtree.core.parameter import Parameter
+        om = _om()
+        s = el(mk.real("s", (), lo=0))
+        y = mk.real("y", (K,), lo=0)
+        z = mk.real("z", (K,), lo=0)
+        x = y / y.sum()
+        xp = z / z.sum()
+        seen = []
+
+        class DrawDirichlet(torch.distributions.Dirichlet):
+            def sample(self, sample_shape=torch.Size()):
+                seen.append(self.concentration)
+                return _clone(xp)
+        p = Parameter("freqs", _clone(x))
+        op = _operator_class(kind)("op", [p], 1.0, 0.24, s)
+        dist = _NS(torch.distributions, Dirichlet=DrawDirichlet)
+        with _module_names(om, torch=_NS(torch, distributions=dist)):
+            h = op.step()
+
+        def logdir(vv, cc):
+            tot = 0
+            r = 0
+            for i in range(K):
+                r = r + (el(cc, (i,)) - 1) * slog(el(vv, (i,)))
+                r = r - slgamma(el(cc, (i,)))
+                tot = tot + el(cc, (i,))
+            return r + slgamma(tot)
+        claims = [("true", "one draw", len(seen) == 1, len(seen))]
+        if seen:
+            claims.append(("eq", "proposal drawn from Dirichlet(s*x)", seen[0], x * s))
+        claims.append(("eq", "parameter := draw", p.tensor, xp))
+        claims.append(("eq", "hastings = logDir(x; s x') - logDir(x'; s x)", [el(h)], [logdir(x, xp * s) - logdir(xp, x * s)]))
+        return claims
+    return scn
+
+
+# =====================================================================================================
+# C15.tune: direction of the proposal-scale change
+# =====================================================================================================
+class _SymMath:
+    """`math` as seen by a repository module during a symbolic tune obligation: log / exp / sqrt / pow of symbolic scalars
+    are the interpreted function symbols of vt.nf (rewrite rules with side conditions), everything else is the real math"""
+
+    @staticmethod
+    def _v(x):
+        if isinstance(x, ST):
+            return x.item()
+        if isinstance(x, torch.Tensor):
+            return float(x)
+        return x
+
+    def __getattr__(self, name):
+        return getattr(math, name)
+
+    def log(self, x):
+        x = self._v(x)
+        return nf.rlog(x) if isinstance(x, nf.RF) else math.log(x)
+
+    def exp(self, x):
+        x = self._v(x)
+        return nf.rexp(x) if isinstance(x, nf.RF) else math.exp(x)
+
+    def sqrt(self, x):
+        x = self._v(x)
+        return nf.rsqrt(x) if isinstance(x, nf.RF) else math.sqrt(x)
+
+    def pow(self, b, e):
+        b, e = self._v(b), self._v(e)
+        if isinstance(b, nf.RF) or isinstance(e, nf.RF):
+            try:
+                return nf.rpow(b, e)
+            except Exception:
+                return nf.ufn("pow", nf.as_rf(b), nf.as_rf(e), positive=True)
+        return math.pow(b, e)
+
+
+def _tunables():
+    """name -> dict(make(sym, vals) -> (object, modules), call(obj, p), get(obj) -> tuning value, boldness(value),
+    domain description).  In symbolic mode the tuning value, the target and the adaptation count are symbolic."""
+    import importlib
+    om = _om()
+    gm = importlib.import_module("torchtree.inference.mcmc.gmrf_block_updating")
+    hm = importlib.import_module("torchtree.inference.hmc.operator")
+    am = importlib.import_module("torchtree.inference.hmc.adaptation")
+    dm = importlib.import_module("torchtree.ops.dual_averaging")
+    from torchtree.core.parameter import Parameter
+    from torchtree.inference.hmc.integrator import LeapfrogIntegrator
+    T = {}
+
+    def simple(cls, mods, boldness, doc, lo_hi, **kw):
+        def make(value, target, count, **extra):
+            op = cls("op", [], 1.0, target, value)
+            op._adapt_count = count
+            return op
+        return dict(make=make, mods=mods, call=lambda op, p: op.tune(p, sample=1, accepted=True),
+                    get=lambda op: op.tuning_parameter, boldness=boldness, doc=doc, domain=lo_hi,
+                    ident=lambda op: op.set_adaptable_parameter(op.adaptable_parameter), **kw)
+
+    T["ScalerOperator"] = simple(om.ScalerOperator, [om], lambda a: 1 / a - a,
+                                 "scale factor s ~ U[a, 1/a]: boldness = window width 1/a - a", (0.0, 1.0))
+    T["SlidingWindowOperator"] = simple(om.SlidingWindowOperator, [om], lambda w: w,
+                                        "shift ~ U[-w/2, w/2]: boldness = width w", (0.0, None))
+    T["DirichletOperator"] = simple(om.DirichletOperator, [om], lambda s: 1 / s,
+                                    "x' ~ Dirichlet(s x): variance of the proposal ~ 1/s: boldness = 1/s", (0.0, None))
+
+    def make_gmrf(value, target, count, **extra):
+        gm_ = types.SimpleNamespace(field=Parameter("f", torch.zeros(3)), precision=Parameter("tau", torch.ones(1)))
+        op = gm.GMRFPiecewiseCoalescentBlockUpdatingOperator("op", None, gm_, 1.0, target, value)
+        op._adapt_count = count
+        return op
+    T["GMRFPiecewiseCoalescentBlockUpdatingOperator"] = dict(
+        make=make_gmrf, mods=[om, gm], call=lambda op, p: op.tune(p, sample=1, accepted=True), get=lambda op: op.tuning_parameter,
+        boldness=lambda S: S, doc="precision' in [tau/S, tau*S]: boldness = S", domain=(1.0, None),
+        ident=lambda op: op.set_adaptable_parameter(op.adaptable_parameter))
+
+    def make_hmc(value, target, count, **extra):
+        integ = LeapfrogIntegrator("lf", 3, value)
+        op = hm.HMCOperator("op", lambda: torch.tensor(0.0), [Parameter("x", torch.zeros(2))], integ, Parameter("m", torch.ones(2)), 1.0, target, [])
+        op._adapt_count = count
+        return op
+    T["HMCOperator"] = dict(make=make_hmc, mods=[om, hm], call=lambda op, p: op.tune(p, sample=1, accepted=True),
+                            get=lambda op: op._integrator.step_size, boldness=lambda e: e, doc="leapfrog step size", domain=(0.0, None),
+                            ident=lambda op: op.set_adaptable_parameter(op.adaptable_parameter))
+
+    def make_ass(value, target, count, **extra):
+        integ = LeapfrogIntegrator("lf", 3, value)
+        a = am.AdaptiveStepSize("a", integ, target)
+        a._call_counter = count
+        return a
+    T["AdaptiveStepSize"] = dict(make=make_ass, mods=[am], call=lambda a, p: a.learn(p, 1, True), get=lambda a: a._integrator.step_size,
+                                 boldness=lambda e: e, doc="leapfrog step size (HMCOperator.tune delegates to the adaptors)", domain=(0.0, None),
+                                 concrete_count=True)
+    return T
+
+
+def _sym_tune(name, twin=None, what="tune", count=None):
+    """run the REAL tune/learn (what='tune') or the real re-parameterisation pair (what='ident') once on symbolic
+    (tuning value, acceptance probability p, target t, adaptation count); returns [((v0, v1, p, t), path)], T.
+    The adaptation count is `m - 2` for a symbolic m >= 2, so that the Robbins-Monro gain the code computes,
+    1 / (2 + count), is the symbol 1/m (all counts >= 0 at once); adaptors that compare their counter with
+    start/end bounds get the concrete `count` instead."""
+    T = _tunables()[name]
+    lo, hi = T["domain"]
+
+    def run():
+        from vt.cond import assume
+        if name == "GMRFPiecewiseCoalescentBlockUpdatingOperator":
+            r = nf.var("r", nonneg=True)           # scaler S = 1 + r^2 >= 1 (the operator's own domain: sqrt(S - 1))
+            val = 1 + r * r
+        else:
+            val = nf.var("val", positive=True)
+            if hi is not None:
+                assume(Cond.make(val - hi, "<"))
+        t = nf.var("t", positive=True)
+        assume(Cond.make(t - 1, "<"))
+        p = sym("p", (), nonneg=True)
+        assume(Cond.make(p.a[()] - 1, "<="))
+        if T.get("concrete_count"):
+            n = count
+        else:
+            m = nf.var("m", positive=True)
+            assume(Cond.make(2 - m, "<="))
+            n = m - 2
+        obj = T["make"](val, t, n)
+        if twin is not None:
+            twin(obj)
+        sm = _SymMath()
+        with contextlib.ExitStack() as st:
+            for mod in T["mods"]:
+                st.enter_context(_module_names(mod, math=sm))
+            if what == "tune":
+                T["call"](obj, p)
+            else:
+                T["ident"](obj)
+            v1 = T["get"](obj)
+        return nf.as_rf(val), nf.as_rf(v1), p.a[()], t
+    ex = Explorer(max_paths=16, timeout_ms=10000)
+    return ex.run(run), T
+
+
+def prove_tune_direction(name, side, twin=None, count=None):
+    """z3: acceptance above (below) target => boldness' >= (<=) boldness, for all tuning values in the domain, all
+    p in [0,1], t in (0,1), adaptation count n >= 0"""
+    import z3
+    results, T = _sym_tune(name, twin, count=count)
+    if not results:
+        raise Undecided("no feasible path")
+    stats = {"paths": len(results), "z3_goals": 0, "backend": "z3 (EXP uninterpreted: positive, strictly monotone, EXP(0)=1)",
+             "boldness": T["doc"]}
+    for (v0, v1, p, t), path in results:
+        tr = ExpTranslator()
+        pc = [tr.cond(c) for c in path]
+        B0, B1 = tr.rf(nf.as_rf(T["boldness"](v0))), tr.rf(nf.as_rf(T["boldness"](v1)))
+        pz, tz = tr.rf(p), tr.rf(t)
+        ax = tr.exp_axioms() + [pz >= 0, pz <= 1, tz > 0, tz < 1]
+        hyp = (pz > tz) if side == "above" else (pz < tz)
+        goal = (B1 >= B0) if side == "above" else (B1 <= B0)
+        ok, model = _z3_prove(tr, pc + ax + [hyp], goal)
+        stats["z3_goals"] += 1
+        stats["statement"] = "p %s t  =>  boldness(%s) %s boldness(%s)" % (">" if side == "above" else "<", nf.show(v1, 8), ">=" if side == "above" else "<=", nf.show(v0, 8))
+        if ok is None:
+            raise Undecided("z3 unknown: " + stats["statement"])
+        if ok is False:
+            wit = _model_floats(tr, model, {"val", "r", "t", "p", "m"})
+            conf, cw = tune_grid(name, side, first_only=True, twin=twin)
+            raise Refuted("tuning direction: acceptance %s target makes the next proposals %s. new tuning value %s from %s; z3 model %s; "
+                          "on the real class: %s" % (side, "more timid" if side == "above" else "bolder", nf.show(v1, 8), nf.show(v0, 8), wit, cw),
+                          witness={"z3_model": wit, "real": cw},
+                          replay={"kind": "custom", "contract": "C15", "func": "replay_tune", "args": cw} if cw and twin is None else None,
+                          confirmed=bool(conf))
+    return stats
+
+
+def prove_tune_identity(name):
+    """set_adaptable_parameter(adaptable_parameter) leaves the tuning parameter unchanged: nf identity; if nf cannot
+    close it, z3 (roots / EXP) - a z3 counter-model is a refutation only when the real class confirms it"""
+    results, T = _sym_tune(name, what="ident")
+    if "ident" not in T:
+        raise Undecided("no re-parameterisation pair")
+    backend = "nf"
+    for (v0, v1, p, t), path in results:
+        if nf.equal(v0, v1):
+            continue
+        tr = ExpTranslator()
+        pc = [tr.cond(c) for c in path]
+        a, b = tr.rf(v0), tr.rf(v1)
+        ok, model = _z3_prove(tr, pc + tr.exp_axioms(), a == b)
+        backend = "nf+z3"
+        if ok is True:
+            continue
+        bad = identity_grid(name)
+        if bad:
+            raise Refuted("set_adaptable_parameter(adaptable_parameter) changes the tuning parameter: %s" % bad, witness=bad,
+                          replay={"kind": "custom", "contract": "C15", "func": "replay_identity", "args": bad}, confirmed=True)
+        raise Undecided("identity not closed: %s vs %s" % (nf.show(v0), nf.show(v1)))
+    (v0, v1, p, t), _ = results[0]
+    return {"backend": backend, "paths": len(results), "statement": "tuning value after set_adaptable_parameter(adaptable_parameter): %s == %s" % (nf.show(v1, 6), nf.show(v0, 6)),
+            "side_conditions": len(nf.SIDE)}
+
+
+def identity_grid(name):
+    for value in GRID[name]:
+        T = _tunables()[name]
+        obj = T["make"](value, 0.234, 0)
+        T["ident"](obj)
+        v = float(T["get"](obj))
+        if abs(v - value) > 1e-9 * max(1.0, abs(value)):
+            return {"class": name, "value": value, "after": v}
+    return None
+
+
+def replay_identity(args):
+    T = _tunables()[args["class"]]
+    obj = T["make"](args["value"], 0.234, 0)
+    T["ident"](obj)
+    v = float(T["get"](obj))
+    ok = abs(v - args["value"]) <= 1e-9 * max(1.0, abs(args["value"]))
+    return ok, "real %s: tuning value %r becomes %r after set_adaptable_parameter(adaptable_parameter)" % (args["class"], args["value"], v)
+
+
+GRID = {
+    "ScalerOperator": [1e-6, 0.01, 0.1, 0.5, 0.75, 0.999],
+    "SlidingWindowOperator": [1e-6, 0.1, 1.0, 37.5],
+    "DirichletOperator": [1e-3, 0.5, 1.0, 50.0, 1e4],
+    "GMRFPiecewiseCoalescentBlockUpdatingOperator": [1.0, 1.0001, 1.5, 2.0, 10.0],
+    "HMCOperator": [1e-6, 0.0125, 0.1, 2.0],
+    "AdaptiveStepSize": [1e-6, 0.0125, 0.1, 2.0],
+}
+
+
+def _real_tune_once(name, value, p, target, count, twin=None):
+    T = _tunables()[name]
+    obj = T["make"](value, target, count)
+    if twin is not None:
+        twin(obj)
+    b0 = T["boldness"](T["get"](obj))
+    with contextlib.redirect_stdout(io.StringIO()):
+        T["call"](obj, torch.tensor(float(p), dtype=torch.float64))
+    v1 = T["get"](obj)
+    b1 = T["boldness"](v1)
+    idv = None
+    if "ident" in T:
+        T["ident"](obj)
+        idv = T["get"](obj)
+    return float(b0), float(b1), float(v1), (float(idv) if idv is not None else None)
+
+
+def tune_grid(name, side, first_only=False, twin=None):
+    """the real tune on a grid of concrete values (real math): returns (failed?, first witness or None)"""
+    bad = None
+    n = 0
+    for value in GRID[name]:
+        for target in (0.1, 0.234, 0.8):
+            for count in (0, 1, 10, 10 ** 4):
+                for p in (0.0, 1e-9, 0.05, 0.2, 0.234, 0.5, 0.81, 1.0):
+                    if (side == "above" and not p > target) or (side == "below" and not p < target):
+                        continue
+                    n += 1
+                    b0, b1, v1, idv = _real_tune_once(name, value, p, target, count, twin)
+                    slack = 1e-12 * max(abs(b0), abs(b1))
+                    wrong = (b1 < b0 - slack) if side == "above" else (b1 > b0 + slack)
+                    if wrong and bad is None:
+                        bad = {"class": name, "side": side, "value": value, "p": p, "target": target, "count": count,
+                               "boldness_before": b0, "boldness_after": b1, "new_value": v1}
+                        if first_only:
+                            return True, bad
+    TUNE_GRID_COUNT[0] = n
+    return bad is not None, bad
+
+
+TUNE_GRID_COUNT = [0]
+
+
+def replay_tune(args):
+    b0, b1, v1, _ = _real_tune_once(args["class"], args["value"], args["p"], args["target"], args["count"])
+    wrong = (b1 < b0) if args["side"] == "above" else (b1 > b0)
+    msg = ("real %s: tuning value %r -> %r after tune(acceptance_prob=%r) with target %r, adapt count %r: boldness %r -> %r (%s)"
+           % (args["class"], args["value"], v1, args["p"], args["target"], args["count"], b0, b1,
+              ("acceptance ABOVE target made the proposals MORE TIMID" if args["side"] == "above" else "acceptance BELOW target made the proposals BOLDER") if wrong else "right direction"))
+    return (not wrong), msg
+
+
+def _dual(mu, delta, gamma, step):
+    import importlib
+    am = importlib.import_module("torchtree.inference.hmc.adaptation")
+    from torchtree.inference.hmc.integrator import LeapfrogIntegrator
+    integ = LeapfrogIntegrator("lf", 3, step)
+    return am.DualAveragingStepSize("d", integ, mu=mu, delta=delta, gamma=gamma), integ, am
+
+
+def dual_real_sequence(accs, delta=0.8, mu=0.5):
+    d, integ, _ = _dual(mu, delta, 0.05, 0.1)
+    out = []
+    for i, a in enumerate(accs):
+        d.learn(torch.tensor(float(a), dtype=torch.float64), i + 1, True)
+        out.append(float(integ.step_size))
+    return out
+
+
+def dual_witness(side):
+    """shortest acceptance sequence from restart() on the REAL DualAveragingStepSize whose last acceptance is on `side`
+    of the target while the step size moves the wrong way"""
+    delta = 0.8
+    grid = (0.0, 0.5, 0.79, 0.81, 1.0)
+    for n in (2, 3):
+        for accs in itertools.product(grid, repeat=n):
+            last = accs[-1]
+            if (side == "above" and not last > delta) or (side == "below" and not last < delta):
+                continue
+            steps = dual_real_sequence(accs, delta)
+            wrong = steps[-1] < steps[-2] if side == "above" else steps[-1] > steps[-2]
+            if wrong:
+                return {"side": side, "accs": list(accs), "delta": delta, "steps": steps}
+    return None
+
+
+def replay_dual(args):
+    steps = dual_real_sequence(args["accs"], args["delta"])
+    wrong = steps[-1] < steps[-2] if args["side"] == "above" else steps[-1] > steps[-2]
+    return (not wrong), ("real DualAveragingStepSize (target %r) fed acceptance probabilities %r: step sizes %r - the last acceptance is %s the "
+                         "target and the step size %s" % (args["delta"], args["accs"], steps, args["side"], "went the wrong way" if wrong else "went the right way"))
+
+
+def _dual_symbolic(c, p):
+    """one real learn() from the reachable symbolic state (counter c, running average S, step = exp(x_c));
+    returns (x_prev, step_after)"""
+    MU, G, S, t = nf.var("mu"), nf.var("gamma", positive=True), nf.var("sbar"), nf.var("t", positive=True)
+    sm = _SymMath()
+    import importlib
+    dm = importlib.import_module("torchtree.ops.dual_averaging")
+    x_prev = MU - S * nf.const(nf.rationalise(math.sqrt(c))) / G
+    d, integ, am = _dual(MU, t, G, nf.rexp(x_prev))
+    d._dual_avg._counter = c
+    d._dual_avg.s_bar = S
+    d._dual_avg.x = x_prev
+    d._call_counter = c
+    with _module_names(dm, math=sm), _module_names(am, math=sm):
+        d.learn(p, c + 1, True)
+    return x_prev, nf.as_rf(integ.step_size), t
+
+
+def prove_dual_direction(side, counts=(1, 2, 10, 100)):
+    """literal clause for the dual-averaging adaptor: from every reachable state (counter c >= 1, any running average),
+    acceptance above (below) the target must not shrink (grow) the step size"""
+    import z3
+    stats = {"z3_goals": 0, "backend": "z3 (EXP monotone)"}
+    for c in counts:
+        def run():
+            p = sym("p", (), nonneg=True)
+            from vt.cond import assume
+            assume(Cond.make(p.a[()] - 1, "<="))
+            return _dual_symbolic(c, p) + (p.a[()],)
+        for (x_prev, step1, t, p), path in Explorer(max_paths=8).run(run):
+            tr = ExpTranslator()
+            pc = [tr.cond(cc) for cc in path]
+            s0, s1 = tr.EXP(tr.rf(x_prev)), tr.rf(step1)
+            pz, tz = tr.rf(p), tr.rf(t)
+            ax = tr.exp_axioms([tr.rf(x_prev)]) + [pz >= 0, pz <= 1, tz > 0, tz < 1]
+            hyp = pz > tz if side == "above" else pz < tz
+            goal = s1 >= s0 if side == "above" else s1 <= s0
+            ok, model = _z3_prove(tr, pc + ax + [hyp], goal)
+            stats["z3_goals"] += 1
+            if ok is None:
+                raise Undecided("z3 unknown (dual averaging, counter %d)" % c)
+            if ok is False:
+                wit = _model_floats(tr, model, {"mu", "gamma", "sbar", "t", "p"})
+                rw = dual_witness(side)
+                raise Refuted("dual-averaging step-size adaptor: at counter %d an acceptance %s the target moves the step size the wrong way "
+                              "(log step = mu - sqrt(k)/gamma * running average of (target - acceptance): the history outweighs the current "
+                              "iteration); z3 model %s; real class: %s" % (c, side, wit, rw), witness={"z3_model": wit, "real": rw},
+                              replay={"kind": "custom", "contract": "C15", "func": "replay_dual", "args": rw} if rw else None, confirmed=bool(rw))
+    return stats
+
+
+def prove_dual_monotone(counts=(0, 1, 2, 10, 100)):
+    """what dual averaging does guarantee: the new step size is strictly increasing in the acceptance probability of the
+    current iteration (same state, p1 > p2  =>  step'(p1) > step'(p2))"""
+    stats = {"z3_goals": 0, "backend": "z3 (EXP monotone)", "statement": "p1 > p2 => step'(p1) > step'(p2), counters %s" % (counts,)}
+    for c in counts:
+        def run():
+            p1, p2 = sym("p1", (), nonneg=True), sym("p2", (), nonneg=True)
+            a = _dual_symbolic(c, p1)
+            b = _dual_symbolic(c, p2)
+            return a[1], b[1], p1.a[()], p2.a[()]
+        for (s1, s2, p1, p2), path in Explorer(max_paths=8).run(run):
+            tr = ExpTranslator()
+            pc = [tr.cond(cc) for cc in path]
+            z1, z2, q1, q2 = tr.rf(s1), tr.rf(s2), tr.rf(p1), tr.rf(p2)
+            ok, model = _z3_prove(tr, pc + tr.exp_axioms() + [q1 > q2], z1 > z2)
+            stats["z3_goals"] += 1
+            if ok is None:
+                raise Undecided("z3 unknown")
+            if ok is False:
+                raise Refuted("dual averaging: a higher acceptance probability gives a smaller step size at counter %d" % c,
+                              witness=_model_floats(tr, model, {"p1", "p2", "mu", "gamma", "sbar", "t"}), replay=None, confirmed=None)
+    return stats
